@@ -2,6 +2,7 @@ package sim
 
 import (
 	"archive/tar"
+	"context"
 	"fmt"
 	"os"
 	"path/filepath"
@@ -76,3 +77,5 @@ func RebuildObserve(w *World, drive string, extra []string) (Tree, []string, err
 	t, probs := Observe(st.FS, "/", ObsOpts{Extra: extra})
 	return t, probs, ierr, nil
 }
+
+func contextBG() context.Context { return context.Background() }
